@@ -9,6 +9,8 @@ def configs(tier):
         ('children: 3occ x 2slots (new children + several demotions per step)', dict(family='one_level', fam_kw=dict(occ=3, slots=2, attrs=0, text=False, leaf_form=False, p_form=False, pool=3))),
         ('documents: root children 2docs x 2slots + text', dict(family='root_level', fam_kw=dict(docs=2, slots=2, attrs=0, text=True, leaf_form=False, root_form=False, pool=3))),
         ('documents: root attributes 2docs x 3 slots', dict(family='root_level', fam_kw=dict(docs=2, slots=0, attrs=3, text=False, leaf_form=False, root_form=False, pool=3))),
+        ('children whose byte order differs from the order of their PascalCase forms: 2occ x 2slots', dict(family='one_level', fam_kw=dict(occ=2, slots=2, attrs=0, text=False, leaf_form=False, p_form=False, names=['Beta', 'alpha', 'item-b', 'item_a']))),
+        ('attributes whose byte order differs from the order of their snake_case forms: 2occ x 2 attribute slots', dict(family='one_level', fam_kw=dict(occ=2, slots=0, attrs=2, text=False, leaf_form=False, p_form=False, anames=['Beta', 'alpha', 'b-x', 'b_a']))),
         ('struct order: 2occ x 2slots x 1grandchild', dict(family='one_level', fam_kw=dict(occ=2, slots=2, gslots=1, attrs=0, text=False, leaf_form=False, p_form=False, pool=2, gpool=2))),
         ('serde_xml_rs is out of scope for attribute grouping; mixed attrs+children+text 2occ', dict(family='one_level', fam_kw=dict(occ=2, slots=1, attrs=2, text=True, leaf_form=False, p_form=False, pool=2))),
     ]
